@@ -16,6 +16,43 @@ def set_state_calls(fn: FuncInfo) -> list[tuple[ast.Call, str]]:
     return out
 
 
+def opened_stream_rule(eng: Engine, ck: Check, rule: str, relies: str):
+    """A stream that `asyncio.open_connection` handed back is either taken over by the connection (writer stored in `self._writer`, state
+    reported CONNECTED) or closed ON THE SPOT (`writer.close()`): on every path from the successful open to an exit of connect().  The
+    path on which a concurrent disconnect() overtook the connect is the delicate one: the state is already CLOSED there, so
+    `self.disconnect()` returns at its idempotence guard and closes nothing -- the socket has to be closed directly."""
+    f = eng.func(CONN, 'DataConnection.connect')
+    ck.visited(f)
+    c = eng.cfg(f)
+    opens = [x for x in calls_in(f.node) if call_name(x) == 'open_connection']
+    ck.floor(rule + '.open_connection', len(opens), 1)
+    for x in opens:
+        st = enclosing_stmt(x)
+        wname = None
+        if isinstance(st, ast.Assign) and isinstance(st.targets[0], ast.Tuple) and len(st.targets[0].elts) == 2:
+            wname = unparse(st.targets[0].elts[1])
+        names = {wname, 'self._writer'} - {None}
+
+        def settles(n) -> bool:
+            if n.ast is None:
+                return False
+            for y in ast.walk(n.ast) if not isinstance(n.ast, (ast.If, ast.While, ast.For, ast.Try, ast.With, ast.AsyncWith)) else []:
+                if isinstance(y, ast.Call) and call_name(y) == 'close' and isinstance(y.func, ast.Attribute) and unparse(y.func.value) in names:
+                    return True
+                if isinstance(y, ast.Call) and call_name(y) == 'set_state' and y.args and enum_member(y.args[0]) == 'CONNECTED':
+                    return True
+            return False
+        starts = [s_ for n in c.nodes_for(x) for s_, lab in n.succ if lab == 'next']
+        p = c.find_path(starts, lambda n: n.kind.startswith('exit'), avoid=settles,
+                        edge_ok=lambda a, b, lab: lab == 'next' or (lab == 'exc' and isinstance(a.ast, ast.Raise)))
+        if p is None and any(n.kind.startswith('exit') for n in starts):
+            p = [(starts[0], 'next')]
+        ck.ob(rule, f, x, f'the stream opened by connect() is taken over (CONNECTED) or closed directly on every path out of connect() ({relies})', p is None,
+              ('path ' + c.describe_path(p, f.where) + ' leaves connect() with the socket open and nobody holding it to account: `disconnect()` on a connection that is '
+               'already CLOSED returns at its guard, the transport stays registered with the loop, the remote end never sees EOF') if p else '',
+              construct='opened stream settled')
+
+
 def run(eng: Engine, ck: Check):
     repo = eng.repo
     conn_mod = repo.module(CONN)
@@ -100,6 +137,27 @@ def run(eng: Engine, ck: Check):
                       ok, f'suspension at line {s.lineno} (the connection may have been closed meanwhile) and no '
                           f'state guard dominates the call without a further suspension',
                       construct=f'set_state({m}) on {recv}')
+                # .. and that re-check admits only states from which {m} is a step FORWARD: the states that pass all the fresh state
+                # tests (those with no suspension between test and call) are computed as sets of enum members
+                if not listening:
+                    ORDER = ['UNINITIALIZED', 'CONNECTING', 'CONNECTED', 'CLOSING', 'CLOSED']
+                    adm = set(ORDER)
+                    for e_, pol_, a_ in eng.guards_at(f, call):
+                        if any(cf.suspension_between(a_, n2) is not None for n2 in cf.nodes_for(call)):
+                            continue
+                        for e2, p2 in split_conj(expand_aliases(f, e_), pol_):
+                            if mentions_attr(e2, 'connection_state'):
+                                continue
+                            a2 = cmp_atom(e2)
+                            if a2 and a2[0] in ('eq', 'is', 'in') and mentions_attr(a2[1], 'state') and enum_members_in(a2[2]) & set(ORDER):
+                                named = enum_members_in(a2[2]) & set(ORDER)
+                                adm &= named if p2 else set(ORDER) - named
+                            elif mentions_attr(e2, '_is_closing') and not a2:
+                                adm &= {'CLOSING', 'CLOSED'} if p2 else set(ORDER) - {'CLOSING', 'CLOSED'}
+                    back = sorted(x for x in adm if ORDER.index(x) >= ORDER.index(m))
+                    ck.ob('R-C10-MONO', f, call, f'the re-check before set_state({m}) on {recv} lets through only states that precede {m}', not back,
+                          f'the fresh state tests admit {sorted(adm)}: from {back} the report of {m} goes BACKWARDS (a connection that another task is closing '
+                          f'reports CLOSING, {m}, CLOSED and clears _is_closing in between)', construct=f'set_state({m}) on {recv} admits only earlier states')
         if m == 'CLOSING' and not listening:
             # (c) idempotence guard, and CLOSED on every exit
             def closing_guard(e, pol):
@@ -164,6 +222,8 @@ def run(eng: Engine, ck: Check):
     _defs_emit.event_bus_emit_contains(eng, ck, 'R-C10-CLOSED-ALWAYS', 'set_state() awaits the state report of every connection; an escaping listener failure turns a close into an exception in the closing task')
     _defs_emit.identity_semantics(eng, ck, 'R-C10-REGISTRY', [('PeerConnection', CONN), ('ServerConnection', CONN), ('ListeningConnection', CONN)],
                                   'the registry removes a closed connection with `in` / list.remove(); two connections to one endpoint are different connections')
+    opened_stream_rule(eng, ck, 'R-C10-CLOSED-ALWAYS', 'a connection reported CLOSED holds no open socket')
+    _defs_emit.enum_members_distinct(eng, ck, 'R-C10-TYPESTATE', [('ConnectionState', CONN), ('CloseReason', CONN), ('PeerConnectionState', CONN)], 'every life-cycle test compares against one state')
     # ---- R-C10-REGISTRY
     net_cls = repo.cls('Network', NET)
     adders = eng.mutations_of_attr('peer_connections', ['append', 'add', 'insert', 'extend'])
@@ -286,4 +346,3 @@ def run(eng: Engine, ck: Check):
 
 def recv_name(r: ast.AST) -> str:
     return chain_str(r) or unparse(r)
-    _defs_emit.enum_members_distinct(eng, ck, 'R-C10-TYPESTATE', [('ConnectionState', CONN), ('CloseReason', CONN), ('PeerConnectionState', CONN)], 'every life-cycle test compares against one state')
